@@ -1,5 +1,6 @@
 #!/usr/bin/env python3
 """C05 - handlers bind each parameter from its declared source and enforce requiredness."""
+import copy
 import json
 import os
 import random
@@ -97,6 +98,20 @@ def main():
                                     "validator": None, "slice": False}]})
                     i += 1
         projects.append(cov)
+        # grouped declarations: three names in one field followed by a separately declared parameter of the same type
+        grp = copy.deepcopy(cov)
+        gc = grp["controllers"][0]
+        gc["methods"] = []
+        for gi, (ty, loc) in enumerate([("string", "query"), ("int", "query"), ("string", "header"), ("int64", "form")]):
+            def gp(n):
+                return {"name": n, "ctx": False, "loc": loc, "alias": None, "type": ty, "pointer": False, "validator": None,
+                        "slice": False}
+            gc["methods"].append({
+                "name": "Grp%d" % gi, "verb": "POST" if loc == "form" else "GET", "route": "/grp%d" % gi, "hidden": False,
+                "deprecated": False, "security": [], "ret": "string", "errtype": "error", "response": None, "errors": [],
+                "descr": "", "file": 0, "params": [gp("first"), gp("middle"), gp("last"), gp("nick")],
+                "groups": [[0, 1, 2], [3]]})
+        projects.append(grp)
     moddir, results = R.generate_routes(PROP, projects)
 
     # ---- (1) translation obligations per generated file
@@ -130,7 +145,8 @@ def main():
                                "or passes the arguments in another order"}, no_input=True)
 
     # ---- (2) compiled routers: values at the boundaries of the declared type, presence / absence
-    chosen = [C12.clean_project(projects[-1])] + [C12.clean_project(p) for p in projects[:(1 if a.tier == "quick" else 6)]]
+    chosen = [C12.clean_project(projects[-1]), C12.clean_project(projects[-2])] + \
+        [C12.clean_project(p) for p in projects[:(1 if a.tier == "quick" else 6)]]
     h = servers.build_servers(PROP + "_srv", chosen)
     reqs, rmeta, hrows = [], [], []
     for k, p in enumerate(chosen):
